@@ -22,6 +22,7 @@ import (
 	"strings"
 	"sync"
 	"time"
+	"unicode/utf8"
 
 	spb "google.golang.org/genproto/googleapis/rpc/status"
 	"google.golang.org/protobuf/encoding/protojson"
@@ -328,6 +329,14 @@ func wsScripts(r *rng, n int) [][][]byte {
 		wsFrame(1, true, true, 0, js)[:7], // cut inside the payload
 		[]byte("GET / HTTP/1.1\r\n\r\n"),
 	}
+	// decode errors quote the request: long multi-byte field names at every alignment put a character across the
+	// 123-byte capacity of the close reason
+	for _, ch := range []string{"é", "書", "😀"} {
+		for shift := 0; shift < 4; shift++ {
+			atoms = append(atoms, text([]byte("{\""+strings.Repeat("a", shift)+strings.Repeat(ch, 80)+"\":1}")))
+			atoms = append(atoms, text([]byte("{\"s\":"+strings.Repeat("a", shift)+strings.Repeat(ch, 80)+"}")))
+		}
+	}
 	var out [][][]byte
 	for _, a := range atoms { // every atom alone, and after one valid message
 		out = append(out, [][]byte{a}, [][]byte{text(js), a})
@@ -418,6 +427,10 @@ func parseServerFrames(b []byte) []string {
 			code := 0
 			if n >= 2 {
 				code = int(binary.BigEndian.Uint16(p[:2]))
+				if !utf8.Valid(p[2:]) { // RFC 6455 5.5.1: the reason is UTF-8; a conforming client fails the connection
+					out = append(out, "bad:close reason is not valid UTF-8")
+					continue
+				}
 			}
 			out = append(out, fmt.Sprintf("close:%d", code))
 		default:
